@@ -176,7 +176,7 @@ class Calls:
             else:
                 a = {'kind': 'CXXDefaultArgExpr'}
             if a.get('kind') == 'CXXDefaultArgExpr':
-                init = [c for c in p.get('inner', ()) if c.get('kind') not in ('TemplateArgument',)]
+                init = [c for c in p.get('inner', ()) if c.get('kind') not in ('TemplateArgument',) and 'Comment' not in c.get('kind', '')]
                 if not init:
                     # default declared on the in-class declaration
                     init = self.default_from_prev(ex, decl, i)
@@ -296,6 +296,12 @@ class Calls:
         ghosts = [v for v in extra.values() if z3.is_expr(v) and z3.is_const(v) and str(v).startswith('ghost.')]
         if c.trusted:
             ex.assumed.add('trusted contract: ' + c.key)
+        # ghost hooks of the *calling* function on this call's arguments (values at call time)
+        try:
+            argvals = [ex.read(path) for _, path, _ in bound]
+        except Unsupported:
+            argvals = []
+        ex.ghost_trigger('call:' + re.sub(r'<.*>', '', c.name).split('::')[-1], None, argvals)
         if c.throws is not None:
             cond = S.spec_eval(c.throws, env_pre, extra)
             if ex.decide(cond):
@@ -530,8 +536,10 @@ class Calls:
             inits = {}
             if rec is not None:
                 for c in rec.get('inner', ()):
-                    if c.get('kind') == 'FieldDecl' and c.get('inner'):
-                        inits[c['name']] = c['inner'][0]
+                    if c.get('kind') == 'FieldDecl':
+                        ii = [x for x in c.get('inner', ()) if 'Comment' not in x.get('kind', '')]
+                        if ii:
+                            inits[c['name']] = ii[0]
             for fn_, fs in sh[2]:
                 if fn_ in inits:
                     f[fn_] = ex.coerce(ex.ev(inits[fn_]), fs)
@@ -553,9 +561,10 @@ class Calls:
             e = c['inner'][0] if c.get('inner') else None
             if e is not None and e.get('kind') == 'CXXDefaultInitExpr' and not e.get('inner') and 'anyInit' in c:
                 fd = ex.tu.decls.get(c['anyInit']['id'])
-                if fd is None or not fd.get('inner'):
+                ii = [x for x in (fd or {}).get('inner', ()) if 'Comment' not in x.get('kind', '')]
+                if not ii:
                     raise Unsupported('default member initialiser of %s not found' % c['anyInit'].get('name'))
-                e = fd['inner'][0]
+                e = ii[0]
             if 'anyInit' in c:
                 fname = c['anyInit']['name']
                 ft = c['anyInit']['type']
